@@ -145,7 +145,7 @@ package router
 //@   oncall go: nGo = nGo + 1
 //@   modifies obj(r.prefetch.queue)
 //@   ensures [C19:reserve-first] nRes == 1
-//@   callsite go: [C20:goroutine-gets-private-question] !captures(q)
+//@   callsite go: [C07,C20:goroutine-gets-private-question] !captures(q)
 //@   ensures [C19:spawn-only-if-reserved] (nGo == 1) == okRes && nGo <= 1
 //@ func (c *cacheCtl) Get(ctx context.Context, q *dnsmsg.Question, rc *RequestContext) (m *dnsmsg.Msg, storedTime time.Time, expireTime time.Time)
 //@   trusted
@@ -239,6 +239,7 @@ package router
 //@   ensures err == nil ==> b != nil && fresh(b) && rootObj(b) && len(b) >= 12
 //@   ensures err != nil ==> b == nil
 //@   ensures [C09:udp-limit] err == nil && size > 0 && old(optSmall(m)) ==> len(b) <= (size < 512 ? 512 : (size > 65535 ? 65535 : size))
+//@   callsite Pack: [C09:limit-passed-on] arg3 == (size > 65535 ? 65535 : size) && arg2 == compression
 
 //@ func packRespTCP(m *dnsmsg.Msg, compression bool) (b pool.Buffer, err error)
 //@   props C09 C13 C01
@@ -248,6 +249,7 @@ package router
 //@   ensures err == nil ==> b != nil && fresh(b) && rootObj(b) && len(b) >= 14
 //@   ensures err != nil ==> b == nil
 //@   ensures [C13:frame-prefix] err == nil && old(optSmall(m)) ==> len(b) - 2 <= 65535 && BE16(b, 0) == uint16(len(b) - 2)
+//@   callsite Pack: [C09:stream-limit-is-65535] arg3 == 65535 && arg2 == compression
 
 //@ func mustHaveRespB(query *dnsmsg.Msg, resp *dnsmsg.Msg, errRcode dnsmsg.RCode, tcp bool, size int) (b pool.Buffer)
 //@   props C03 C09 C13 C01
